@@ -88,6 +88,20 @@ func Freeze() {
 	}
 }
 
+// closedErr reports whether the reactor has been stopped or frozen. select chooses randomly among
+// ready cases, so a stopped or frozen reactor with a free token (or room in the input channel)
+// would otherwise still accept items about half of the time.
+func (r *reactor) closedErr() error {
+	select {
+	case <-r.ctx.Done():
+		return ErrReactorShuttingDown
+	case <-r.freezeCtx.Done():
+		return ErrReactorFrozen
+	default:
+		return nil
+	}
+}
+
 // ReceiveFeedback sends an item to the feedback channel.
 // If the item is not present on the state table it gets discarded
 func ReceiveFeedback(item *models.Item) error {
@@ -104,6 +118,9 @@ func ReceiveFeedback(item *models.Item) error {
 	// Check before storing: a rejected item must not end up tracked (it would never be finished and holds no token).
 	if _, loaded := globalReactor.stateTable.Load(item.GetID()); !loaded {
 		return ErrFeedbackItemNotPresent
+	}
+	if err := globalReactor.closedErr(); err != nil {
+		return err
 	}
 	item.SetSource(models.ItemSourceFeedback)
 	globalReactor.stateTable.Store(item.GetID(), item)
@@ -122,6 +139,11 @@ func ReceiveFeedback(item *models.Item) error {
 func ReceiveInsert(item *models.Item) error {
 	if globalReactor == nil {
 		return ErrReactorNotInitialized
+	}
+
+	if err := globalReactor.closedErr(); err != nil {
+		logger.Debug("received item on stopped or frozen reactor", "item", item.GetShortID())
+		return err
 	}
 
 	select {
